@@ -187,7 +187,7 @@ func (h *quotaH) report() string {
 	return fmt.Sprintf("ev=%s ok=%s err=%s blk=%s %s", ev, ints(ok), es, ints(blk), st)
 }
 
-func kv(f []string, key string) (string, bool) {
+func quotaKV(f []string, key string) (string, bool) {
 	for _, x := range f {
 		if strings.HasPrefix(x, key+"=") {
 			return x[len(key)+1:], true
@@ -205,7 +205,7 @@ func (h *quotaH) Op(f []string) string {
 		if h.ct != nil {
 			return "bad-op"
 		}
-		if v, ok := kv(f, "maxid"); ok {
+		if v, ok := quotaKV(f, "maxid"); ok {
 			h.savedMaxID, h.maxIDSet = transport.MaxStreamID, true
 			transport.MaxStreamID = uint32(atou(v))
 		}
@@ -236,7 +236,7 @@ func (h *quotaH) Op(f []string) string {
 		if f[1] != "none" {
 			ss = append(ss, http2.Setting{ID: http2.SettingMaxConcurrentStreams, Val: uint32(atou(f[1]))})
 		}
-		if v, ok := kv(f, "hl"); ok {
+		if v, ok := quotaKV(f, "hl"); ok {
 			ss = append(ss, http2.Setting{ID: http2.SettingMaxHeaderListSize, Val: uint32(atou(v))})
 		}
 		if err := h.fr.WriteSettings(ss...); err != nil {
@@ -361,10 +361,10 @@ func (h *quotaH) Op(f []string) string {
 func (h *quotaH) spawn(k int, f []string) {
 	for i := 0; i < k; i++ {
 		ctx, cancel := context.WithCancel(context.Background())
-		if v, ok := kv(f, "dl"); ok {
+		if v, ok := quotaKV(f, "dl"); ok {
 			ctx, _ = context.WithTimeout(ctx, time.Duration(atou(v))*time.Millisecond)
 		}
-		if v, _ := kv(f, "sz"); v == "B" {
+		if v, _ := quotaKV(f, "sz"); v == "B" {
 			ctx = metadata.NewOutgoingContext(ctx, metadata.Pairs("k", strings.Repeat("x", 4000)))
 		}
 		h.mu.Lock()
